@@ -54,12 +54,30 @@ func c16R1(ic *IC, r *Report) {
 	}
 	fg := buildFlow(is.Decl.Body, ic.Info)
 	var test *ast.IfStmt
+	var testIx *ast.IndexExpr
 	var mark *ast.AssignStmt
 	ast.Inspect(is.Decl.Body, func(n ast.Node) bool {
 		switch x := n.(type) {
 		case *ast.IfStmt:
 			if ix, ok := unparen(x.Cond).(*ast.IndexExpr); ok && selField(ic.Info, ix.X) == rdir {
-				test = x
+				test, testIx = x, ix
+			}
+			// if v := interp.rdir[k]; v { ... }  /  if v, ok := interp.rdir[k]; ok && v { ... }
+			if as, ok := x.Init.(*ast.AssignStmt); ok && len(as.Rhs) == 1 && test == nil {
+				if ix, ok := unparen(as.Rhs[0]).(*ast.IndexExpr); ok && selField(ic.Info, ix.X) == rdir {
+					if lid := identOf(as.Lhs[0]); lid != nil {
+						uses := false
+						ast.Inspect(x.Cond, func(k ast.Node) bool {
+							if id, ok := k.(*ast.Ident); ok && ic.Info.ObjectOf(id) == ic.Info.ObjectOf(lid) {
+								uses = true
+							}
+							return true
+						})
+						if uses {
+							test, testIx = x, ix
+						}
+					}
+				}
 			}
 		case *ast.AssignStmt:
 			for i, l := range x.Lhs {
@@ -98,7 +116,7 @@ func c16R1(ic *IC, r *Report) {
 			}
 			return ""
 		}
-		tk := keyOf(test.Cond)
+		tk := keyOf(testIx)
 		mk := ""
 		for _, l := range mark.Lhs {
 			if ix, ok := unparen(l).(*ast.IndexExpr); ok && selField(ic.Info, ix.X) == rdir {
@@ -118,7 +136,7 @@ func c16R1(ic *IC, r *Report) {
 		})
 		// the key variable is not reassigned between the test and the mark
 		reassigned := false
-		if id, ok := unparen(test.Cond).(*ast.IndexExpr).Index.(*ast.Ident); ok {
+		if id, ok := testIx.Index.(*ast.Ident); ok {
 			obj := ic.Info.ObjectOf(id)
 			ast.Inspect(is.Decl.Body, func(n ast.Node) bool {
 				if as, ok := n.(*ast.AssignStmt); ok && as.Pos() > test.Pos() && as.End() < mark.Pos() {
